@@ -86,6 +86,7 @@ type World struct {
 	Deadline       time.Time
 	TimedOut       bool
 
+	modelDiverged    bool
 	expectIssued     *big.Int
 	adoptGov         bool
 	deletedThisBlock map[Addr]bool
@@ -97,8 +98,23 @@ type World struct {
 
 func (w *World) logf(f string, a ...interface{}) { w.Log = append(w.Log, fmt.Sprintf(f, a...)) }
 
+// replicaFamily: verdicts that compare nodes with each other (or a node with the engine), not with the model.
+func replicaFamily(check string) bool {
+	for _, p := range []string{"replica.", "crash.", "reopen.", "apply.", "open.", "side.panic", "harness."} {
+		if strings.HasPrefix(check, p) {
+			return true
+		}
+	}
+	return false
+}
+
 func (w *World) violate(check string, props []string, h int64, f string, a ...interface{}) *Violation {
 	v := &Violation{Check: check, Props: props, Height: h, Detail: fmt.Sprintf(f, a...)}
+	if w.modelDiverged && !replicaFamily(check) {
+		// the model already left the node's track in an earlier block: its verdicts are no longer meaningful,
+		// but node-vs-node comparisons still are, so the world goes on for those
+		return v
+	}
 	w.Viol = append(w.Viol, v)
 	w.logf("VIOL %s h=%d %s", check, h, v.Detail)
 	return v
@@ -531,9 +547,19 @@ func (w *World) RunBlock(h int64, step *BlockStep) {
 	}
 
 	if len(w.Viol) > 0 {
-		// a world that has hit a violation has diverged from the model: nothing after it is meaningful
-		w.Fatal = true
-		return
+		// a world that has hit a violation has diverged from the model: the model's verdicts after it are
+		// not meaningful. Node-vs-node comparisons still are: the world continues for those unless the
+		// violation already is one of them (or the model cannot continue at all).
+		for _, v := range w.Viol {
+			if replicaFamily(v.Check) {
+				w.Fatal = true
+			}
+		}
+		if w.Fatal || len(w.Reps)+len(w.Forks) < 2 {
+			w.Fatal = true
+			return
+		}
+		w.modelDiverged = true
 	}
 	// faults at the block boundary
 	w.cur = nil
